@@ -46,6 +46,8 @@ BuildFunction(reg, scope, isV, f) ==
       ELSE IF IsSome(f.addr) /\ f.addr < 0 THEN Fail("conv-address")
       ELSE IF IsSome(f.index) /\ ~isV THEN Fail("index-on-impl")
       ELSE IF f.cc # "" /\ f.cc \notin Conventions THEN Fail("bad-cc")
+      (* every calling_convention attribute is validated, whichever of them decides in the end *)
+      ELSE IF HasBadExtra(f) THEN Fail("bad-cc")
       ELSE IF ~isV /\ ~IsSome(f.addr) THEN Fail("no-address")
       ELSE IF badArg THEN Fail("unresolved-param")
       ELSE IF f.ret # TNone /\ rret = TNone /\ ~DROPRET THEN Fail("unresolved-return")
